@@ -245,7 +245,10 @@ def enum_paths(body, limit=5000):
         else:
             go(rest, prefix + [("stmt", st)], k, lk)
 
-    go(list(body), [], lambda p: out.append(p + [("fall", None)]), None)
+    # `x = A if C else B` / `return A if C else B` are branches like any other
+    from .sem import split_ifexp
+
+    go(split_ifexp(list(body)), [], lambda p: out.append(p + [("fall", None)]), None)
     return out
 
 
